@@ -400,6 +400,8 @@ func checkSharedLocks(c *Ctx, res *report.Result) {
 	checkObserverIndexGuard(c, res, "O20.9")
 	res.RuleDoc["O20.11"] = "the +1 stream report is all-or-nothing: every function that can end up in adminServiceProxyServer.reportStreamValue (followed from the constructor through its callers' arguments) performs no counting effect (gauge / atomic Inc, Dec, Add, Sub) before an instruction that may panic, and the handler's own gauge Inc is followed at once by its deferred Dec - the deferred -1 is registered only after the +1 returned, so a reporter that counts and then panics (the observer rejects huge ids that way) corrupts the count for every later stream"
 	checkReportAllOrNothing(c, res, "O20.11")
+	res.RuleDoc["O20.15"] = "an intra-proxy stream-open is served or rejected, never parked: no return of intraProxyStreamSender.Run is reachable without recvAck(latch) (or a Shutdown of the latch), and recvAck registers its deferred Shutdown in its entry block - streamIntraProxyRouting waits on that latch only, so a refusal in front of the ack loop leaves the handler, its goroutine and its +1 in the observer behind for ever"
+	checkIntraSenderRunTripsLatch(c, res, "O20.15")
 	res.RuleDoc["O20.14"] = "ids of any printed length cannot crash the membership goroutine: NodeMeta returns the marshalled node state only on the side of a comparison of its own length with the limit on which len(data) <= limit - the shard keys in it are the ids from stream-open metadata, memberlist panics on an oversized meta, and the UpdateNode goroutine that RegisterShard / UnregisterShard start is outside every CapturePanic"
 	checkNodeMetaFitsLimit(c, res, "O20.14")
 	res.RuleDoc["O20.13"] = "the counter table only grows: streamActive is assigned by the constructor and by ReportStreamValue on the growing side of its length test with slices.Grow / append of the old table, and by nobody else - a compaction or reset is a second writer of the bookkeeping every open stream relies on for its deferred -1, and a slot cut off while its stream is open corrupts that shard's count for every later stream"
